@@ -5,6 +5,8 @@ Property theorems for ALL scenes of axis-parallel rectangles and connector end p
 overlaps, any direction flags).  Helper lemmas: `Lemmas/OrthVis*.lean`.
 -/
 import AdaptaVerif.Lemmas.OrthVisLines
+import AdaptaVerif.Lemmas.OrthVisOrder
+import AdaptaVerif.Lemmas.OrthVisCover
 
 namespace AdaptaVerif.Props.C05OrthVis
 open AdaptaVerif.Model.OrthVis AdaptaVerif.Lemmas.OrthVis
@@ -134,5 +136,243 @@ theorem hasConnIn_iff (conns : List Conn) (R : Rect) : hasConnIn conns R = true 
   constructor
   · rintro ⟨c, hc, ⟨⟨h1, h2⟩, h3⟩, h4⟩; exact ⟨c, hc, h1, h2, h3, h4⟩
   · rintro ⟨c, hc, h1, h2, h3, h4⟩; exact ⟨c, hc, ⟨⟨h1, h2⟩, h3⟩, h4⟩
+
+/-- the effective flags (after the outside rule) of connector end point `i` allow `f` -/
+def Allows (s : Scene) (i : Nat) (f : Dirs → Bool) : Prop := ∃ c, s.fixDirs[i]? = some c ∧ f c.d = true
+
+/-- **Orientation and direction restrictions.**  Every edge of the model graph runs from its first to its
+    second vertex towards a strictly larger x (horizontal) or y (vertical) coordinate — in particular no
+    edge is degenerate —, it leaves a connector end point only in a direction the end point's effective
+    flags allow and reaches one only against such a direction. -/
+theorem graph_edge_directed (s : Scene) : ∀ e ∈ s.graph,
+    (e.1.y = e.2.y ∧ e.1.x < e.2.x ∧
+      (∀ i, e.1.k = .conn i → Allows s i (·.right)) ∧ (∀ i, e.2.k = .conn i → Allows s i (·.left))) ∨
+    (e.1.x = e.2.x ∧ e.1.y < e.2.y ∧
+      (∀ i, e.1.k = .conn i → Allows s i (·.down)) ∧ (∀ i, e.2.k = .conn i → Allows s i (·.up))) := by
+  intro e he
+  unfold Scene.graph Lines.edges at he
+  rw [lines_conns] at he
+  rcases List.mem_append.mp he with he | he
+  · left
+    obtain ⟨⟨h, vs⟩, _, he⟩ := List.mem_flatMap.mp he
+    obtain ⟨⟨a, b⟩, hab, rfl⟩ := List.mem_map.mp he
+    have hlt := lineEdges_lt (toBPs_sorted _ vs) _ hab
+    obtain ⟨d1, d2⟩ := lineEdges_dirs _ _ hab
+    obtain ⟨ha, hb⟩ := mem_lineEdges hab
+    refine ⟨rfl, hlt, ?_, ?_⟩
+    · intro i hi
+      simp only at hi d1
+      have := d1 (by rw [hi]; rfl)
+      rw [(toBPs_flags ha).2, hi] at this
+      exact dirsX_up this
+    · intro i hi
+      simp only at hi d2
+      have := d2 (by rw [hi]; rfl)
+      rw [(toBPs_flags hb).1, hi] at this
+      exact dirsX_dn this
+  · right
+    obtain ⟨⟨v, vs⟩, _, he⟩ := List.mem_flatMap.mp he
+    obtain ⟨⟨a, b⟩, hab, rfl⟩ := List.mem_map.mp he
+    have hlt := lineEdges_lt (toBPs_sorted _ vs) _ hab
+    obtain ⟨d1, d2⟩ := lineEdges_dirs _ _ hab
+    obtain ⟨ha, hb⟩ := mem_lineEdges hab
+    refine ⟨rfl, hlt, ?_, ?_⟩
+    · intro i hi
+      simp only at hi d1
+      have := d1 (by rw [hi]; rfl)
+      rw [(toBPs_flags ha).2, hi] at this
+      exact dirsY_up this
+    · intro i hi
+      simp only at hi d2
+      have := d2 (by rw [hi]; rfl)
+      rw [(toBPs_flags hb).1, hi] at this
+      exact dirsY_dn this
+
+/-- **Completeness along a line.**  On every line of the model (horizontal shown; `…_v` vertical) two
+    breakpoints at different positions with no breakpoint of that line strictly between them are joined by
+    an edge of the graph, unless the lower one is a connector end point that may not be left towards higher
+    coordinates or the higher one a connector end point that may not be left towards lower ones. -/
+theorem line_adjacent_joined_h (s : Scene) (h : Seg) (vs : List LV) (hl : (h, vs) ∈ s.lines.hs)
+    (a b : BP) (ha : a ∈ toBPs (dirsX s.fixDirs) vs) (hb : b ∈ toBPs (dirsX s.fixDirs) vs)
+    (hab : a.t < b.t) (hno : ∀ c ∈ toBPs (dirsX s.fixDirs) vs, ¬ (a.t < c.t ∧ c.t < b.t))
+    (h1 : a.k.isConn = true → a.up = true) (h2 : b.k.isConn = true → b.dn = true) :
+    ((⟨a.t, h.p, a.k⟩, ⟨b.t, h.p, b.k⟩) : GV × GV) ∈ s.graph := by
+  unfold Scene.graph Lines.edges
+  rw [lines_conns]
+  apply List.mem_append_left
+  refine List.mem_flatMap.mpr ⟨(h, vs), hl, ?_⟩
+  exact List.mem_map.mpr ⟨(a, b), lineEdges_adjacent (toBPs_sorted _ vs) ha hb hab hno h1 h2, rfl⟩
+
+theorem line_adjacent_joined_v (s : Scene) (v : Seg) (vs : List LV) (hl : (v, vs) ∈ s.lines.vs)
+    (a b : BP) (ha : a ∈ toBPs (dirsY s.fixDirs) vs) (hb : b ∈ toBPs (dirsY s.fixDirs) vs)
+    (hab : a.t < b.t) (hno : ∀ c ∈ toBPs (dirsY s.fixDirs) vs, ¬ (a.t < c.t ∧ c.t < b.t))
+    (h1 : a.k.isConn = true → a.up = true) (h2 : b.k.isConn = true → b.dn = true) :
+    ((⟨v.p, a.t, a.k⟩, ⟨v.p, b.t, b.k⟩) : GV × GV) ∈ s.graph := by
+  unfold Scene.graph Lines.edges
+  rw [lines_conns]
+  apply List.mem_append_right
+  refine List.mem_flatMap.mpr ⟨(v, vs), hl, ?_⟩
+  exact List.mem_map.mpr ⟨(a, b), lineEdges_adjacent (toBPs_sorted _ vs) ha hb hab hno h1 h2, rfl⟩
+
+/-- every live connector end point lies, with its own vertex, on a horizontal line of the model that
+    reaches at least to the first blocking rectangle side in each direction its flags allow -/
+theorem endpoint_on_hline (s : Scene) (i : Nat) (c : Conn) (hc : s.fixDirs[i]? = some c) (hl : c.d.none = false) :
+    ∃ p ∈ s.lines.hs, p.1.p = c.y ∧ (⟨c.x, .conn i⟩ : LV) ∈ p.2 ∧ p.1.b ≤ c.x ∧ c.x ≤ p.1.f ∧
+      (c.d.left = true → p.1.b ≤ firstAbove s.lo (activeAt s.rects c.y) c.x c.y) ∧
+      (c.d.right = true → firstBelow s.hi (activeAt s.rects c.y) c.x c.y ≤ p.1.f) := by
+  have hraw : connSegH s.lo s.hi s.rects i c ∈ rawH s.lo s.hi s.rects s.fixDirs := by
+    unfold rawH
+    apply List.mem_append_right
+    refine List.mem_map.mpr ⟨(c, i), ?_, rfl⟩
+    refine List.mem_filter.mpr ⟨List.mem_zipIdx_iff_getElem?.mpr hc, by simp [hl]⟩
+  obtain ⟨m, hm, hp, hb, hf, hvs⟩ := mergeAll_covers _ _ hraw
+  refine ⟨_, mem_lines_hs s m hm, ?_, ?_, ?_, ?_, ?_, ?_⟩
+  · exact hp
+  · apply mem_hVerts_of_mem
+    apply hvs
+    simp [connSegH]
+  · have : (connSegH s.lo s.hi s.rects i c).b ≤ c.x := by
+      simp only [connSegH]; split
+      · rename_i h; simp only [Bool.and_eq_true, decide_eq_true_eq] at h; grind
+      · exact Rat.le_refl
+    simp only at hb ⊢; grind
+  · have : c.x ≤ (connSegH s.lo s.hi s.rects i c).f := by
+      simp only [connSegH]; split
+      · rename_i h; simp only [Bool.and_eq_true, decide_eq_true_eq] at h; grind
+      · exact Rat.le_refl
+    simp only at hf ⊢; grind
+  · intro hleft
+    have : (connSegH s.lo s.hi s.rects i c).b ≤ firstAbove s.lo (activeAt s.rects c.y) c.x c.y := by
+      simp only [connSegH]; split
+      · exact Rat.le_refl
+      · rename_i h; simp only [hleft, Bool.true_and, decide_eq_true_eq] at h; grind
+    simp only at hb ⊢; grind
+  · intro hright
+    have : firstBelow s.hi (activeAt s.rects c.y) c.x c.y ≤ (connSegH s.lo s.hi s.rects i c).f := by
+      simp only [connSegH]; split
+      · exact Rat.le_refl
+      · rename_i h; simp only [hright, Bool.true_and, decide_eq_true_eq] at h; grind
+    simp only at hf ⊢; grind
+
+/-- … and, when it may be left upwards (downwards) and there is room, on a vertical line through it that
+    reaches at least to the first blocking side above (below) -/
+theorem endpoint_on_vline (s : Scene) (i : Nat) (c : Conn) (hc : s.fixDirs[i]? = some c) :
+    (c.d.up = true → firstAbove s.lo (activeAt (s.rects.map Rect.tr) c.x) c.y c.x < c.y →
+      ∃ p ∈ s.lines.vs, p.1.p = c.x ∧ (⟨c.y, .conn i⟩ : LV) ∈ p.2 ∧
+        p.1.b ≤ firstAbove s.lo (activeAt (s.rects.map Rect.tr) c.x) c.y c.x ∧ c.y ≤ p.1.f) ∧
+    (c.d.down = true → c.y < firstBelow s.hi (activeAt (s.rects.map Rect.tr) c.x) c.y c.x →
+      ∃ p ∈ s.lines.vs, p.1.p = c.x ∧ (⟨c.y, .conn i⟩ : LV) ∈ p.2 ∧
+        p.1.b ≤ c.y ∧ firstBelow s.hi (activeAt (s.rects.map Rect.tr) c.x) c.y c.x ≤ p.1.f) := by
+  have hcm : c ∈ s.fixDirs := List.mem_of_getElem? hc
+  -- common part: a candidate vertical segment `r` through the end point is covered by a vertical line
+  -- which receives the end point's vertex from the horizontal line through it
+  have key : ∀ r : Seg, r ∈ connSegsV s.lo s.hi (s.rects.map Rect.tr) c.tr → c.d.none = false →
+      r.p = c.x → r.b ≤ c.y → c.y ≤ r.f →
+      ∃ p ∈ s.lines.vs, p.1.p = c.x ∧ (⟨c.y, .conn i⟩ : LV) ∈ p.2 ∧ p.1.b ≤ r.b ∧ r.f ≤ p.1.f := by
+    intro r hr hl hrp hrb hrf
+    have hraw : r ∈ rawV s.lo s.hi (s.rects.map Rect.tr) (s.fixDirs.map Conn.tr) := by
+      unfold rawV
+      apply List.mem_append_right
+      refine List.mem_flatMap.mpr ⟨c.tr, ?_, hr⟩
+      refine List.mem_filter.mpr ⟨List.mem_map.mpr ⟨c, hcm, rfl⟩, ?_⟩
+      simp [Conn.tr, Dirs.tr_none, hl]
+    obtain ⟨m, hm, hp, hb, hf, _⟩ := mergeAll_covers _ _ hraw
+    obtain ⟨ph, hph, hy, hvx, hb', hf', _, _⟩ := endpoint_on_hline s i c hc hl
+    refine ⟨_, mem_lines_vs s m hm, by simp only; rw [hp, hrp], ?_, hb, hf⟩
+    apply mem_vVerts_of_from _ _ _ _ ph hph
+    unfold vFrom
+    have hcr : crosses ph.1 m = true := by
+      unfold crosses
+      simp only [Bool.and_eq_true, decide_eq_true_eq]
+      rw [hy, hp, hrp]
+      grind
+    rw [if_pos hcr]
+    apply List.mem_append_left
+    refine List.mem_map.mpr ⟨⟨c.x, .conn i⟩, List.mem_filter.mpr ⟨hvx, ?_⟩, by simp [hy]⟩
+    simp [hp, hrp]
+  constructor
+  · intro hup hroom
+    have hl : c.d.none = false := by simp [Dirs.none, hup]
+    obtain ⟨p, hp, h1, h2, h3, h4⟩ := key
+      ⟨firstAbove s.lo (activeAt (s.rects.map Rect.tr) c.x) c.y c.x, c.y, c.x, []⟩
+      (by
+        unfold connSegsV
+        apply List.mem_append_left
+        simp [Conn.tr, Dirs.tr, hup, hroom]) hl rfl (by simp only; grind) (by simp only; exact Rat.le_refl)
+    exact ⟨p, hp, h1, h2, h3, h4⟩
+  · intro hdn hroom
+    have hl : c.d.none = false := by simp [Dirs.none, hdn]
+    obtain ⟨p, hp, h1, h2, h3, h4⟩ := key
+      ⟨c.y, firstBelow s.hi (activeAt (s.rects.map Rect.tr) c.x) c.y c.x, c.x, []⟩
+      (by
+        unfold connSegsV
+        apply List.mem_append_right
+        simp [Conn.tr, Dirs.tr, hdn, hroom]) hl rfl (by simp only; exact Rat.le_refl) (by simp only; grind)
+    exact ⟨p, hp, h1, h2, h3, h4⟩
+
+
+/-- What "the first blocking side" is: `firstBelow` (towards larger x; `firstAbove` symmetric, and the same
+    two functions on the transposed scene for y) is at most the near side of every rectangle that the line
+    `y = py` crosses strictly and that lies beyond `px`, and it is the sentinel (+∞) or attained by such a
+    rectangle of the scan line. -/
+theorem firstBelow_is_first_blocking_side (hi : Rat) (rects : List Rect) (px py : Rat) :
+    (∀ R ∈ rects, R.y0 < py → py < R.y1 → R.x0 ≥ px → firstBelow hi (activeAt rects py) px py ≤ R.x0) ∧
+    (firstBelow hi (activeAt rects py) px py = hi ∨
+      ∃ R ∈ rects, R.y0 < py ∧ py < R.y1 ∧ R.x0 ≥ px ∧ firstBelow hi (activeAt rects py) px py = R.x0) := by
+  constructor
+  · intro R hR h0 h1 hx
+    exact (first_block hi hi (activeAt rects py) px py R (mem_activeAt hR h0 h1) h0 h1).2 hx
+  · unfold firstBelow
+    rcases minL_mem hi (((activeAt rects py).filter fun c => offEdge py c && decide (c.x0 ≥ px)).map (·.x0)) with h | h
+    · exact Or.inl h
+    · right
+      obtain ⟨R, hR, hv⟩ := List.mem_map.mp h
+      obtain ⟨hact, hcond⟩ := List.mem_filter.mp hR
+      simp only [Bool.and_eq_true, decide_eq_true_eq] at hcond
+      unfold activeAt at hact
+      obtain ⟨hmem, hy⟩ := List.mem_filter.mp hact
+      simp only [decide_eq_true_eq] at hy
+      have hoff := hcond.1
+      unfold offEdge at hoff
+      simp only [Bool.not_eq_true', Bool.or_eq_false_iff, beq_eq_false_iff_ne, ne_eq] at hoff
+      refine ⟨R, hmem, lt_of_le_of_ne hy.1 (Ne.symm hoff.1), lt_of_le_of_ne hy.2 hoff.2, hcond.2, hv.symm⟩
+
+theorem firstAbove_is_first_blocking_side (lo : Rat) (rects : List Rect) (px py : Rat) :
+    (∀ R ∈ rects, R.y0 < py → py < R.y1 → R.x1 ≤ px → R.x1 ≤ firstAbove lo (activeAt rects py) px py) ∧
+    (firstAbove lo (activeAt rects py) px py = lo ∨
+      ∃ R ∈ rects, R.y0 < py ∧ py < R.y1 ∧ R.x1 ≤ px ∧ firstAbove lo (activeAt rects py) px py = R.x1) := by
+  constructor
+  · intro R hR h0 h1 hx
+    exact (first_block lo lo (activeAt rects py) px py R (mem_activeAt hR h0 h1) h0 h1).1 hx
+  · unfold firstAbove
+    rcases maxL_mem lo (((activeAt rects py).filter fun c => offEdge py c && decide (c.x1 ≤ px)).map (·.x1)) with h | h
+    · exact Or.inl h
+    · right
+      obtain ⟨R, hR, hv⟩ := List.mem_map.mp h
+      obtain ⟨hact, hcond⟩ := List.mem_filter.mp hR
+      simp only [Bool.and_eq_true, decide_eq_true_eq] at hcond
+      unfold activeAt at hact
+      obtain ⟨hmem, hy⟩ := List.mem_filter.mp hact
+      simp only [decide_eq_true_eq] at hy
+      have hoff := hcond.1
+      unfold offEdge at hoff
+      simp only [Bool.not_eq_true', Bool.or_eq_false_iff, beq_eq_false_iff_ne, ne_eq] at hoff
+      refine ⟨R, hmem, lt_of_le_of_ne hy.1 (Ne.symm hoff.1), lt_of_le_of_ne hy.2 hoff.2, hcond.2, hv.symm⟩
+
+/-! ### non-vacuity: a closed scene (one routing box, one connector with a restricted source) -/
+
+/-- box [2,4]×[2,4]; source (0,3) may only be left to the Right, target (6,3) in all directions -/
+def demoScene : Scene :=
+  ⟨[⟨2, 2, 4, 4⟩], [⟨0, 3, ⟨false, false, false, true⟩⟩, ⟨6, 3, ⟨true, true, true, true⟩⟩]⟩
+
+-- the outside rule gives the source (on the first position of the horizontal sweep) Up|Down as well
+#guard demoScene.fixDirs.map (·.d) == [⟨true, true, false, true⟩, ⟨true, true, true, true⟩]
+-- the source's horizontal line stops at the box, it is joined to the dummy vertex there
+#guard demoScene.graph.contains (⟨0, 3, .conn 0⟩, ⟨2, 3, .node⟩)
+-- and, by the outside rule, to the top and bottom lines of the box
+#guard demoScene.graph.contains (⟨0, 2, .node⟩, ⟨0, 3, .conn 0⟩) && demoScene.graph.contains (⟨0, 3, .conn 0⟩, ⟨0, 4, .node⟩)
+-- nothing crosses the box
+#guard demoScene.graph.all fun e => edgeAvoids ⟨2, 2, 4, 4⟩ e.1.x e.1.y e.2.x e.2.y
+#guard !demoScene.graph.isEmpty
 
 end AdaptaVerif.Props.C05OrthVis
